@@ -1,7 +1,7 @@
 (* M10 (part 3) -- the models instantiated on the GENERATED tables, as closed executable
    functions for `Eval vm_compute` in generated cases_c20.v files (harness/props/c20.py). *)
 From Coq Require Import String List Bool.
-From TF Require Import Model.ArgParse Model.Routes Gen.GenCli Gen.GenConfig.
+From TF Require Import Model.Edit Model.ArgParse Model.Routes Model.RoutesEdit Gen.GenCli Gen.GenConfig.
 Import ListNotations.
 Open Scope string_scope.
 
@@ -46,3 +46,12 @@ Definition run_config (existing : list string) (pairs : list (string * string)) 
 
 Definition run_kwargs (existing : list string) (kwargs : namespace) : iresult params :=
   run_init existing kwargs.
+
+(* `torrentfile edit`: argv = the tokens after `edit`.  ER_ok m ea: commands.edit calls
+   edit_torrent(m, ea) with ea in the order of the dict literal; ER_error: exit status 2 *)
+Definition run_edit_parse (argv : list string) : eresult :=
+  edit_parse edit_args edit_map edit_metafile_attr argv.
+
+(* the same as a request of Model/Edit.v (None: no call, or a value the request type cannot hold) *)
+Definition run_edit_request (argv : list string) : option request :=
+  edit_request_of edit_args edit_map edit_metafile_attr argv.
